@@ -99,6 +99,36 @@ def run(cx):
             h, blocks, backs = loops[0]
             ok = all(m.bb in blocks and all(mv.dominates(m.bb, s) for s in backs) for m in pushes.values())
             ok = ok and all(mv.dominates(m.bb, h) for m in muts if m.callee == 'Vec::clear')
+        two_pass = False
+        if not ok and clears == {'moved', 'closest'} and not pushes:
+            # the same refresh as two passes: moved.extend(points.map(T * p)); closest.extend(moved.map(closest surface point)) - one element per input point each,
+            # the second pass reading the vector the first one just filled
+            from vpa import comp as CMPX
+            ext = {}
+            for s_ in mv.calls('Vec::extend'):
+                tgt = cx.arg(s_, 0)
+                for fld in ('moved', 'closest'):
+                    if find(f'(field {fld} (param self))', tgt) is not None and fld not in ext and find(f'(mut Vec::clear . (field {fld} (param self)))', tgt) is not None:
+                        cs = [c for c in CMPX.comprehensions(cx, mv, ('call', 'Iterator::collect', cx.arg(s_, 1))) if c.get('elem') is not None]
+                        if len(cs) == 1 and not cs[0]['conds']:
+                            ext[fld] = (s_, cs[0])
+            if set(ext) == {'moved', 'closest'}:
+                sm, cm = ext['moved']
+                sc, cc = ext['closest']
+                PTS = '(field points (param self))'
+                okm2 = match(PTS, cm['src']) is not None and match(f'(call Isometry::mul $t (index {PTS} (itervar (range 0 (len {PTS})))))', cm['elem']) is not None and \
+                    (find('(call *::transform (field params _))', cm['elem']) is not None or find('(call *::current_transform (param self))', cm['elem']) is not None)
+                MV = cc['src']
+                filled = match(f'(mut Vec::extend . (mut Vec::clear . (field moved (param self))) _)', MV) is not None
+                if d == '2D':
+                    okc2 = match('(call *CurveStation2::surface_point (call *Curve2::at_closest_to_point (field curve (param self)) (index $mv (itervar (range 0 (len $mv))))))', cc['elem'], {'mv': MV}) is not None
+                else:
+                    okc2 = match('(call *Mesh::surf_closest_to (field mesh (param self)) (index $mv (itervar (range 0 (len $mv)))))', cc['elem'], {'mv': MV}) is not None
+                two_pass = okm2 and filled and okc2 and mv.dominates(sm.bb, sc.bb)
+                if two_pass:
+                    ok = True
+                    cx.ob('EXPR', f'{short}::move_points:moved', True, f'{short}: moved[i] = current transform * points[i], in input order', where=sm)
+                    cx.ob('EXPR', f'{short}::move_points:closest', True, f'{short}: closest[i] is the closest surface point of the reference to the SAME moved point', where=sc)
         cx.ob('COMUT', f'{short}::move_points:parallel', ok, f'{short}: moved and closest are cleared together before the loop and each pushed exactly once per cycle of the loop over the input points', where=mv.file)
         if set(pushes) == {'moved', 'closest'}:
             pm = Site(mv, pushes['moved'].bb, len(mv.blocks[pushes['moved'].bb]['stmts']), 'call', pushes['moved'].data)
